@@ -260,6 +260,11 @@ def run(chk):
                                         "chord": [[0.0, 0.8], [1.0, 0.4]], "dihedral": 20.0, "airfoil": "af0", "grid": {"N": 2, "reid_corrections": False},
                                         "control_surface": {"chord_fraction": 0.3, "control_mixing": {"aileron": 0.5}}}
             st = gen.gen_state(rng, chk.hist)
+            if built == 1:
+                # (enumerated) the MachUp Pro compatibility option with a rotating aircraft: the circulation reported is the one the loads were integrated with
+                sd["solver"].update(match_machup_pro=True, use_total_velocity=True)
+                st["angular_rates"] = [0.3, 0.1, -0.1]
+                chk.count("match_machup_pro=rotating")
             if multi:
                 st["position"] = [rng.uniform(-20, 20), k * rng.uniform(12, 30), rng.uniform(-500, -10)]
             acs.append(("ac%d" % k, ac, st, gen.gen_controls(rng, ac)))
